@@ -174,21 +174,41 @@ func runC18(c *Ctx) {
 		c.analysedFn(p.FnName(rip))
 		bad := false
 		n := 0
-		for _, r := range returnsOf(rip) {
-			if isNilConst(r.Results[0]) {
-				continue
+		// a return is vetted when it lies behind the true edge of isRemoteAddress on
+		// the returned value, or returns the result of a same-package helper whose
+		// non-nil returns are all vetted in turn
+		var vetted func(fn *ssa.Function, depth int, report bool) bool
+		vetted = func(fn *ssa.Function, depth int, report bool) bool {
+			okAll := true
+			for _, r := range returnsOf(fn) {
+				if len(r.Results) != 1 || isNilConst(r.Results[0]) {
+					continue
+				}
+				if report {
+					n++
+				}
+				v := r.Results[0]
+				edges := boolEdges(fn, true, func(w ssa.Value) bool {
+					cc, _, ok := callResult(w)
+					return ok && calleeName(cc) == "proxy/lib.isRemoteAddress" && cc.Call.Args[0] == v
+				})
+				if len(edges) > 0 && reachableWithout(fn, r, edges) == nil {
+					continue
+				}
+				if cc, ok := strip(v).(*ssa.Call); ok && depth > 0 {
+					if h := staticCallee(cc); h != nil && h.Blocks != nil && samePkg(h, fn) && h != fn && vetted(h, depth-1, false) {
+						continue
+					}
+				}
+				okAll = false
+				if report {
+					bad = true
+					c.viol(rule2, "remoteIPFromSDP returns only addresses passing isRemoteAddress", p.instrPos(r), "an address is returned without having passed isRemoteAddress (local or unspecified addresses would be reported to the bridge)")
+				}
 			}
-			n++
-			v := r.Results[0]
-			edges := boolEdges(rip, true, func(w ssa.Value) bool {
-				cc, _, ok := callResult(w)
-				return ok && calleeName(cc) == "proxy/lib.isRemoteAddress" && cc.Call.Args[0] == v
-			})
-			if len(edges) == 0 || reachableWithout(rip, r, edges) != nil {
-				bad = true
-				c.viol(rule2, "remoteIPFromSDP returns only addresses passing isRemoteAddress", p.instrPos(r), "an address is returned without having passed isRemoteAddress (local or unspecified addresses would be reported to the bridge)")
-			}
+			return okAll
 		}
+		vetted(rip, 2, true)
 		if !bad {
 			c.check(n > 0, rule2, "remoteIPFromSDP returns only addresses passing isRemoteAddress", p.Pos(rip.Pos()), fmt.Sprintf("%d returns", n), "no non-nil return")
 		}
